@@ -34,6 +34,7 @@ type SpecEnv struct {
 	old   *State
 	fr    *Frame
 	at    *ssa.BasicBlock
+	atIdx int
 	probe bool
 	slSt  map[*SliceV]*State
 	depth int
@@ -64,7 +65,7 @@ func (ex *Exec) localEnv(fr *Frame, at *ssa.BasicBlock, st *State) *SpecEnv {
 	if fr.ct != nil && fr.ct.Pkg != "" {
 		pkg = fr.ct.Pkg
 	}
-	return &SpecEnv{ex: ex, pkg: pkg, vars: map[string]specBinding{}, cur: st, old: fr.entry, fr: fr, at: at, slSt: map[*SliceV]*State{}}
+	return &SpecEnv{ex: ex, pkg: pkg, vars: map[string]specBinding{}, cur: st, old: fr.entry, fr: fr, at: at, atIdx: -1, slSt: map[*SliceV]*State{}}
 }
 
 // resolveType turns a type string of the contract language into a go/types type.
@@ -332,7 +333,7 @@ func (ex *Exec) evalIdent(name string, env *SpecEnv) (Val, types.Type) {
 		return nilVal{}, nil
 	}
 	if env.fr != nil && env.at != nil {
-		if v, t, ok := ex.lookupLocal(env.fr, name, env.at, env.cur); ok {
+		if v, t, ok := ex.lookupLocalAt(env.fr, name, env.at, env.atIdx, env.cur); ok {
 			return v, t
 		}
 	}
@@ -381,7 +382,7 @@ func (ex *Exec) evalSel(e *SExpr, env *SpecEnv) (Val, types.Type) {
 		if _, bound := env.vars[e.Args[0].Name]; !bound {
 			isLocal := false
 			if env.fr != nil && env.at != nil {
-				_, _, isLocal = ex.lookupLocal(env.fr, e.Args[0].Name, env.at, env.cur)
+				_, _, isLocal = ex.lookupLocalAt(env.fr, e.Args[0].Name, env.at, env.atIdx, env.cur)
 			}
 			if !isLocal {
 				if tp := ex.P.findPkg(e.Args[0].Name); tp != nil {
